@@ -227,6 +227,7 @@ class POXCore (EventMixin):
 
     import threading
     self.quit_condition = threading.Condition()
+    self._quit_lock = threading.Lock()
 
     print(self.banner)
 
@@ -314,15 +315,16 @@ class POXCore (EventMixin):
       self._quit()
 
   def _quit (self):
-    # Should probably do locking here
-    if not self.running:
-      return
-    if self.starting_up:
-      # Try again later
-      self.quit()
-      return
+    with self._quit_lock:
+      # (Only one of several concurrent callers may go on to shut down)
+      if not self.running:
+        return
+      if self.starting_up:
+        # Try again later
+        self.quit()
+        return
 
-    self.running = False
+      self.running = False
     log.info("Going down...")
     import gc
     gc.collect()
